@@ -30,6 +30,11 @@ import c17_cli as K
 HERE = Path(__file__).resolve().parent
 SIG_ZERO = "C17.error_rates.empty_reference_zero_division"
 SIG_OVERLAP = "C17.names.overlapping_prefix_suffix"
+SIG_TG_F32 = "C17.textgrid.infer_length_float32"
+SIG_DUP_LIST = "C17.subset.duplicate_utt_list"
+# frame shifts whose product with a frame count is not exact in float32 (11.61 ms = 256 samples at
+# 22.05 kHz; 1000/44100 = "raw samples at 44.1 kHz", the setting the help text recommends)
+ODD_SHIFTS = [11.61, 11.6, 1000 / 44100, 0.1]
 
 PREFIXES = ["", "", "p_", "ab", "x.", "_s"]
 SUFFIXES = [".pt", ".pt", "", "_s", ".ba", ".pt.bak"]
@@ -102,7 +107,9 @@ class C17(PropertyCheck):
             "junk files that must not be selected; kinds: alidir (ali->ref->ali), refdir (ref->ali->ref incl. "
             "non-canonical and malformed refs), trn/ctm/textgrid round trips, er (error-rate command: "
             "replace/ignore/batch size/per-utt/distances/missing), subset (every criterion x copy mode), "
-            "moments (ali/ref length moments), mvn (grouped MVN statistics); every kind includes the empty "
+            "moments (ali/ref length moments), mvn (grouped MVN statistics); textgrid also with a tier "
+            "without intervals (10%) and frame shifts that are inexact in float32 (12%: 11.61, 11.6, 0.1, "
+            "1000/44100 ms); --utt-list with an utterance listed twice (30% of the list cases); every kind includes the empty "
             "corpus; ctm times on a millisecond or a dyadic (1/1024 s) grid; worker runs (extra_checks): "
             "9 pipelines (ali<->token, trn, ctm, textgrid, subset, ali/ref moments, mvn, chunk) x corpora "
             "of 0/1/3 utterances x workers {0,1,2} x chunk {1,2}, fork sweep + spawn sample; thorough adds "
@@ -264,7 +271,13 @@ class C17(PropertyCheck):
             s = ".pt"
         t2i = self.gen_vocab(rng)
         shift = rng.choice([10.0, 10.0, 20.0, 5.0])
+        if rng.random() < 0.12:
+            # the inferred length T is computed on a tensor (float32), the interval ends in double
+            shift = rng.choice(ODD_SHIFTS)
         corpus = self.timed_corpus(rng, [t for t, _ in t2i], rng.choice([0, 1, 2, 3]), shift, min_len_frames=1)
+        if corpus and rng.random() < 0.1:
+            # a tier without intervals (read_textgrid accepts it): stored as a (0, 3) tensor
+            corpus[rng.randrange(len(corpus))][1] = []
         return {"kind": "textgrid", "prefix": p, "suffix": s, "tg_suffix": tgs, "t2i": t2i,
                 "corpus": corpus, "shift": shift}
 
@@ -333,6 +346,9 @@ class C17(PropertyCheck):
         else:
             pool = utts + ["no_" + rand_name(rng)]
             crit["list"] = rng.sample(pool, rng.randint(0, len(pool)))
+            if crit["list"] and rng.random() < 0.3:
+                # the same utterance listed twice (utt_ids keeps the multiplicity)
+                crit["list"].insert(rng.randrange(len(crit["list"]) + 1), rng.choice(crit["list"]))
         return {"kind": "subset", "prefix": p, "suffix": s, "feat": feat, "others": others, "only": only,
                 "crit": crit, "mode": rng.choice(["link", "copy", "symlink"]), "seed": rng.randint(0, 99)}
 
@@ -534,7 +550,14 @@ class C17(PropertyCheck):
             os.makedirs(tg)
             for u, toks in case["corpus"]:
                 with open(os.path.join(tg, case["prefix"] + u + case["tg_suffix"]), "w") as f:
-                    data.write_textgrid([tuple(t) for t in toks], f, 0.0, None, "transcript", False, 3)
+                    if toks:
+                        data.write_textgrid([tuple(t) for t in toks], f, 0.0, None, "transcript", False, 3)
+                    else:
+                        # write_textgrid refuses an empty transcript; Praat writes such tiers
+                        f.write('File type = "ooTextFile"\nObject class = "TextGrid"\n\nxmin = 0\nxmax = 1\n'
+                                'tiers? <exists>\nsize = 1\nitem []:\n    item [1]:\n'
+                                '        class = "IntervalTier"\n        name = "transcript"\n'
+                                '        xmin = 0\n        xmax = 1\n        intervals: size = 0\n')
             with open(os.path.join(tg, "notes.txt"), "w") as f:
                 f.write("not a textgrid\n")
             tok, tg2 = os.path.join(d, "tok"), os.path.join(d, "tg2")
@@ -543,15 +566,23 @@ class C17(PropertyCheck):
             tgs = ["--textgrid-suffix=" + case["tg_suffix"]]
             K.call("textgrids_to_torch_token_data_dir", [tg, t2i_path, tok] + na + sh + tgs + ["--num-workers", "0"])
             listing = {n: K.load(os.path.join(tok, n)).tolist() for n in sorted(os.listdir(tok))}
-            K.call("torch_token_data_dir_to_textgrids",
-                   [tok, i2t_path, tg2, "--infer"] + na + sh + tgs + ["--num-workers", "0"])
+            err = None
+            try:
+                K.call("torch_token_data_dir_to_textgrids",
+                       [tok, i2t_path, tg2, "--infer"] + na + sh + tgs + ["--num-workers", "0"])
+            except Exception as e:
+                err = {"back_error": type(e).__name__, "back_message": str(e)[-160:],
+                       "back_cause": repr(e.__cause__)[:200]}
             back, text = {}, {}
-            for n in sorted(os.listdir(tg2)):
+            for n in (sorted(os.listdir(tg2)) if (err is None and os.path.isdir(tg2)) else []):
                 tr, _, end = data.read_textgrid(os.path.join(tg2, n))
                 back[n] = [[t, float(a), float(b)] for t, a, b in tr]
                 with open(os.path.join(tg2, n)) as f:
                     text[n] = f.read().split("\n")[:-1]
-            return {"dir": listing, "back": back, "text": text}
+            out = {"dir": listing, "back": back, "text": text}
+            if err:
+                out.update(err)
+            return out
 
     def impl_er(self, case):
         import torch
@@ -798,7 +829,7 @@ class C17(PropertyCheck):
             return {"op": "c17.subset", "case": {"prefix": p, "suffix": s,
                                                   "feat": [[T, n] for n, T in case["feat"]],
                                                   "others": [[sub, names] for sub, names in case["others"].items()],
-                                                  "crit": c}}
+                                                  "crit": c, "link": case["mode"] != "copy"}}
         if k == "moments":
             files = [x for n, x in sorted(case["files"]) if matches(p, s, n)]
             return {"op": "c17.moments", "case": {"kind": case["which"], "files": files, "excl": case["excl"],
@@ -1082,10 +1113,48 @@ class C17(PropertyCheck):
             fails.append((f"--channel B ignored: {impl['chans']}", None))
         return fails
 
+    def _tg_f32_short(self, case, impl):
+        """Token files for which the inferred length T = (max frame * f) / 1000 — computed by the
+        code on a 0-dim TENSOR, i.e. in float32 — is below the end of the last interval
+        `end * f / 1000` computed in double: write_textgrid then refuses end_time (ValueError).
+        Emulated with the same torch operations on the stored rows."""
+        import torch
+        f = float(case["shift"])
+        short = []
+        for n, rows in impl.get("dir", {}).items():
+            if not rows or not matches(case["prefix"], case["suffix"], n):
+                continue
+            m = max(max(r[1], r[2]) for r in rows)
+            T = (torch.tensor(m) * f) / 1000
+            if bool(T < max(r[2] * f / 1000 for r in rows)):
+                short.append(n)
+        return short
+
+    def _tg_back_error_ok(self, case, impl, model_empty):
+        """The error of token dir -> textgrids is one the model predicts (RuntimeError: a file
+        without rows) or the known float32 deviation (ValueError 'could not write textgrid')."""
+        e = impl.get("back_error")
+        if e == "RuntimeError" and model_empty:
+            return "model"
+        if e == "ValueError" and "could not write textgrid" in impl.get("back_message", "") \
+                and "gave end_time" in impl.get("back_cause", "") and self._tg_f32_short(case, impl):
+            return "f32"
+        return None
+
     def cmp_textgrid(self, case, impl, model):
         if self._err(impl):
             return [f"command raised {impl['error']}: {impl.get('message')}"]
         out = self._cmp_rows(case, impl, model)
+        model_empty = [n for n, lines in (model.get("grids") or [])
+                       if isinstance(lines, dict) and lines.get("error") == "RuntimeError"]
+        if impl.get("back_error"):
+            if self._tg_back_error_ok(case, impl, model_empty) is None:
+                out.append(f"token dir -> textgrids raised {impl['back_error']}: {impl.get('back_message')} "
+                           f"({impl.get('back_cause')}); model errors {model_empty}")
+            return out
+        if model_empty:
+            out.append(f"model: RuntimeError (max() of a tensor without rows) for {model_empty}; impl succeeded")
+            return out
         # the TextGrid files written, line by line (utterances whose frames are all exact)
         p, tgs = case["prefix"], case["tg_suffix"]
         exact = {p + u + tgs: all(self.frames_exact(case, t) for t in toks) for u, toks in case["corpus"]}
@@ -1110,6 +1179,16 @@ class C17(PropertyCheck):
     def pred_textgrid(self, case, impl, model):
         if self._err(impl):
             return [(f"textgrid command raised {impl['error']}: {impl.get('message')}", None)]
+        if impl.get("back_error"):
+            why = self._tg_back_error_ok(case, impl, [u for u, toks in case["corpus"] if not toks])
+            if why == "f32":
+                return [(f"torch-token-data-dir-to-textgrids --infer --frame-shift-ms {case['shift']}: the inferred "
+                         f"length is computed in float32 and falls below the end of the last interval "
+                         f"({impl.get('back_cause')}) for {self._tg_f32_short(case, impl)}", SIG_TG_F32)]
+            if why == "model":
+                return []     # a tier without intervals is refused (C17_textgrid_empty), like an empty alignment
+            return [(f"token dir -> textgrids raised {impl['back_error']}: {impl.get('back_message')} "
+                     f"({impl.get('back_cause')})", None)]
         p, tgs = case["prefix"], case["tg_suffix"]
         want = {p + u + tgs: toks for u, toks in case["corpus"]}
         if sorted(impl["back"]) != sorted(want):
@@ -1186,14 +1265,34 @@ class C17(PropertyCheck):
 
     # ---- subset
     def cmp_subset(self, case, impl, model):
+        cmd = model["cmd"]
+        if case["crit"]["kind"].startswith("rand_"):
+            return [f"command raised {impl['error']}: {impl.get('message')}"] if self._err(impl) else []
+        if "error" in cmd:
+            # the copy loop of the model met a target twice with os.link / os.symlink
+            return [] if self._err(impl) == cmd["error"] else [
+                f"model: {cmd['error']} (a target is visited twice, link mode); impl {json.dumps(impl)[:200]}"]
         if self._err(impl):
             return [f"command raised {impl['error']}: {impl.get('message')}"]
-        if case["crit"]["kind"].startswith("rand_"):
-            return []
         mdest = sorted(a + "/" + b for a, b in model["dest"])
-        return [] if impl["dest"] == mdest else [f"dest impl={impl['dest']} model={mdest}"]
+        mcmd = sorted(a + "/" + b for a, b in cmd["ok"])
+        out = [] if mcmd == mdest else [f"model: copy loop {mcmd} differs from the declarative copySubset {mdest}"]
+        return out if impl["dest"] == mcmd else out + [f"dest impl={impl['dest']} model={mcmd}"]
+
+    def _dup_listed(self, case):
+        """Existing utterances that --utt-list / --utt-list-file names more than once."""
+        c = case["crit"]
+        if c["kind"] not in ("utt_list", "utt_list_file"):
+            return []
+        p, s = case["prefix"], case["suffix"]
+        have = {n for n, _ in case["feat"]}
+        return sorted({u for u in c["list"] if c["list"].count(u) > 1 and p + u + s in have})
 
     def pred_subset(self, case, impl, model):
+        if self._err(impl) == "FileExistsError" and case["mode"] != "copy" and self._dup_listed(case):
+            return [(f"--utt-list names {self._dup_listed(case)} twice: FileExistsError with "
+                     f"{'--symlink' if case['mode'] == 'symlink' else 'hard links (the default)'} "
+                     f"(the same list works with --copy)", SIG_DUP_LIST)]
         if self._err(impl):
             return [(f"subset command raised {impl['error']}: {impl.get('message')}", None)]
         fails = []
@@ -1218,7 +1317,7 @@ class C17(PropertyCheck):
             if impl["again"] != impl["dest"]:
                 fails.append((f"--{c['kind'].replace('_', '-')} with the same --seed extracted a different subset", None))
             return fails
-        want = sorted(p + u + s for u in model["selected"])
+        want = sorted({p + u + s for u in model["selected"]})     # a name listed twice is one file
         if got_feat != want:
             fails.append((f"{c}: extracted {got_feat}, requested utterances are {want}", None))
         for sub, names in case["others"].items():
@@ -1331,6 +1430,15 @@ class C17(PropertyCheck):
                 t.append("er.ignore")
         if k == "subset":
             t += ["subset." + case["crit"]["kind"], "subset.mode=" + case["mode"]]
+            if self._dup_listed(case):
+                t.append("subset.utt_listed_twice")
+        if k == "textgrid":
+            if any(not toks for _, toks in case["corpus"]):
+                t.append("textgrid.empty_tier")
+            if case["shift"] in ODD_SHIFTS:
+                t.append("textgrid.odd_shift")
+            if isinstance(impl, dict) and impl.get("back_error"):
+                t.append("textgrid.back_error:" + impl["back_error"])
         if k == "moments":
             t.append("moments." + case["which"])
         if k in ("ctm", "textgrid"):
